@@ -24,7 +24,7 @@ func caseGen() *rapid.Generator[Case] {
 		max = 40
 	}
 	sg := gen.ScriptGen(gen.ScriptOpts{
-		Item:      gen.AnyItem(gen.TokASCII, 1),
+		AllowProps: true, AllowRowErr: true, Item: gen.AnyItem(gen.TokASCII, 1),
 		MinOps:    1,
 		MaxOps:    max,
 		MaxCells:  5,
